@@ -147,6 +147,52 @@ static void engine(void)
         }
         vh_group_end();
     }
+    /* decode / reconstruct failures that the flat-XOR back end reports itself (not injected): every erasure set of hd and hd+1
+     * fragments. When the back end gives up the public call must return a negative code having released everything, and the
+     * instance must go on working; when it does not give up the result must be exact. */
+    { static const struct shape xs[] = { { EC_BACKEND_FLAT_XOR_HD, 3, 3, 3 }, { EC_BACKEND_FLAT_XOR_HD, 5, 5, 3 }, { EC_BACKEND_FLAT_XOR_HD, 6, 6, 4 }, { EC_BACKEND_FLAT_XOR_HD, 10, 5, 3 }, { EC_BACKEND_FLAT_XOR_HD, 6, 5, 4 }, { EC_BACKEND_FLAT_XOR_HD, 10, 5, 4 }, { EC_BACKEND_FLAT_XOR_HD, 12, 6, 4 } };
+      for (int xi = 0; xi < (thorough ? 7 : 5); xi++) {
+        struct shape sh = xs[xi]; int n = sh.k + sh.m;
+        if (!vh_group_begin("X/genuine-decode-failures/k%dm%dhd%d", sh.k, sh.m, sh.hd)) continue;
+        struct stripe st; uint64_t a2 = (uint64_t)sh.k * 4;
+        if (stripe_open(&st, sh, CHKSUM_CRC32, 2 * a2 + 3, PAT_RAMP, NULL) == 0) {
+            for (int sz = sh.hd; sz <= sh.hd + 1 && sz <= sh.m; sz++) {
+                uint64_t v = (1ull << sz) - 1, lim = 1ull << n;
+                while (v < lim) {
+                    uint32_t E = (uint32_t)v;
+                    uint64_t c = v & -v, r = v + c; v = (((r ^ v) >> 2) / c) | r;
+                    if (!vh_case_begin("E%x", E)) continue;
+                    char **arr = (char **)(st.gptr.p + st.gptr.len) - n; int nf = 0;
+                    for (int i = 0; i < n; i++) if (!(E >> i & 1)) arr[nf++] = (char *)frag_at(&st, GP_END, i);
+                    long c0 = ledger_count(), b0 = ledger_bytes();
+                    char *out = NULL; uint64_t ol = 0; vh_op("liberasurecode_decode"); vh_transitions(1);
+                    int rc = liberasurecode_decode(st.desc, arr, nf, st.flen, 0, &out, &ol);
+                    if (rc < 0) { vh_nontrivial();
+                        if (out && ledger_has(out)) { vh_violation("half-done", "decode E=0x%x failed (rc=%d) but left an output buffer for the caller", E, rc); liberasurecode_decode_cleanup(st.desc, out); }
+                        if (ledger_count() != c0 || ledger_bytes() != b0) { char dd[160]; ledger_dump(dd, sizeof dd); vh_violation("half-done", "decode E=0x%x failed (rc=%d) and left %ld blocks / %ld bytes allocated without any cleanup call (live sizes %s)", E, rc, ledger_count() - c0, ledger_bytes() - b0, dd); }
+                    } else if (rc > 0 || ol != st.len || memcmp(out, st.data, st.len)) vh_violation("backend-failure-ignored", "decode E=0x%x returned %d with data that is not the original", E, rc);
+                    if (rc == 0) liberasurecode_decode_cleanup(st.desc, out);
+                    for (int d = 0; d < n; d++) if (E >> d & 1) {
+                        uint8_t *ob = st.gout.p + st.gout.len - st.flen; c0 = ledger_count(); b0 = ledger_bytes();
+                        vh_op("liberasurecode_reconstruct_fragment"); vh_transitions(1);
+                        rc = liberasurecode_reconstruct_fragment(st.desc, arr, nf, st.flen, d, (char *)ob);
+                        if (rc == 0 && memcmp(ob, enc_frag(&st, d), st.flen)) vh_violation("backend-failure-ignored", "reconstruct E=0x%x dest=%d returned 0 with a fragment that is not the original", E, d);
+                        if (rc > 0) vh_violation("backend-failure-ignored", "reconstruct E=0x%x dest=%d returned the positive code %d", E, d, rc);
+                        if (ledger_count() != c0 || ledger_bytes() != b0) { char dd[160]; ledger_dump(dd, sizeof dd); vh_violation("half-done", "reconstruct E=0x%x dest=%d (rc=%d) left %ld blocks / %ld bytes allocated (live sizes %s)", E, d, rc, ledger_count() - c0, ledger_bytes() - b0, dd); }
+                        if (rc < 0) vh_nontrivial();
+                        break;
+                    }
+                    /* the instance still works */
+                    nf = 0; for (int i = 1; i < n; i++) arr[nf++] = (char *)frag_at(&st, GP_END, i);
+                    out = NULL; rc = liberasurecode_decode(st.desc, arr, nf, st.flen, 0, &out, &ol); vh_transitions(1);
+                    if (rc != 0 || ol != st.len || memcmp(out, st.data, st.len)) vh_violation("next-call-failed", "after E=0x%x: a decode with one fragment missing returned %d%s", E, rc, rc == 0 ? " with wrong data" : "");
+                    if (rc == 0) liberasurecode_decode_cleanup(st.desc, out);
+                }
+            }
+        }
+        stripe_close(&st, 1);
+        vh_group_end();
+      } }
     for (int ci = 0; ci < ncfg; ci++) {
         struct shape sh = cfgs[ci];
         if (!vh_group_begin("X/%s/k%dm%dhd%d", be_name(sh.be), sh.k, sh.m, sh.hd)) continue;
